@@ -68,6 +68,13 @@ def handle : Handler := fun input impl =>
       let mobs := s!"served=yes tab={tab} acq={solo} shot={solo} solo={solo} altered={listDash (o.altered.filter syncLabel)} shared={listDash (o.shared.filter (ammoSharedAllowed c).contains)}"
       (if v == "ok" then mobs else "-", if v != "ok" then v else (extraConc okv).getD "ok")
     | _, _, _, _ => ("-", (extraConc okv).getD s!"fail:crash:unparsable observation {impl.take 120}")
+  | "wrap" =>
+    match lookup okv "idx" with
+    | some got =>
+      let n : Int := ((getN? kv "len").getD 1 : Nat)
+      let pred := wrapPrediction (getS kv "obj") (getS kv "idx") n ((getN? kv "ctr").getD 0) ((getN? kv "calls").getD 0)
+      (s!"idx={",".intercalate (pred.map showIdx)}", judgeWrap n (got.splitOn ","))
+    | none => ("-", s!"fail:crash:unparsable observation {impl.take 120}")
   | "retain" =>
     match getN? okv "calls", lookup okv "drift" with
     | some _, some d =>
